@@ -10,6 +10,7 @@ def check(ctx):
     m1.holds("collect 0", "C11_quick.cfg")
     if not ctx.quick:
         m1.holds("collect 1", "C11_quick.cfg", {"C06_A": "C06_B"}, timeout=3000)
+        m1.holds("collect 0, 5 inputs", "C11_quick.cfg", {"MaxEv = 3": "MaxEv = 5"}, timeout=3000)
     m1.caught("SwAck", "C11_quick.cfg")
     traces = anngen.run(ctx.seed, ctx.pick(360, 6000), ctx.pick(8, 12), INSTS, list("ABDF"), tag="c11",
                         with_sub=True, with_find=False, stop_twice=False)
